@@ -444,7 +444,7 @@ def run(tier):
         c01.contrib_tables(mn) if rvref.fmt_of(mn) not in ('U', 'J') else None
     jobs = [(job32, (mn,)) for mn in sorted(rvref.BASE)] + [(job16, (mn,)) for mn in rvref.C_MNEMONICS]
     jobs += [(compress_text_job, (mn,)) for mn in sorted(COMP_CONFIGS)]
-    jobs += [(odd_label_job, ())]
+    jobs += [(odd_label_job, ()), (nonint_job, ())]
     jobs += [(opt_job, ('job16', mn)) for mn in rvref.C_MNEMONICS] + [(opt_job, ('job32', mn)) for mn in OPT_BASE]
     chk.merge(env.run_shards(_dispatch, jobs))
     api = chk.res.evaluations
@@ -465,6 +465,25 @@ def run(tier):
 
 def _dispatch(fn, args):
     return fn(*args)
+
+
+def nonint_job():
+    """An operand that is not an integer (a float, also an integral one: the docs rule out float results) must be refused wherever a
+    number is expected."""
+    asm = env.load_asm()
+    res = env.Result()
+    for expr in ('10 / 5', '6 / 2', '2.0', '1e3', '7 / 2', '1.5', '0.0', '4 / 4 + 1'):
+        for tmpl in ('addi x5, x5, %s', 'NI_K = %s\naddi x5, x5, NI_K', 'li x5, %s', 'dw %s', 'lui x5, %s', 'c.li x8, %s', 'slli x5, x5, NI_S\nNI_S = %s', 'pack <I, %s'):
+            src = tmpl % expr + '\n'
+            for comp in (False, True):
+                res.evaluations += 1
+                res.nontrivial_count += 1
+                try:
+                    out = bytes(asm.assemble(src, compress=comp))
+                except Exception:
+                    continue
+                res.fail('text:accepts:nonint', '%r (compress=%s) has a non-integer operand but assembles to %s' % (src, comp, out.hex()), {'kind': 'text', 'source': src, 'compress': comp, 'expect': REFUSE, 'bytes': None})
+    return res
 
 
 OPT_BASE = ['addi', 'lw', 'sw', 'beq', 'lui', 'jal', 'jalr', 'slli', 'csrrwi', 'fence', 'amoadd.w', 'lr.w', 'add']
